@@ -312,6 +312,13 @@ func init() {
 		emit("pos_store_sites", stores)
 		emit("cur_assign_sites", c1)
 
+		// type assertions without comma-ok, and what protects them
+		atext, err := c03asserts(repo)
+		if err != nil {
+			return "", err
+		}
+		sb.WriteString(atext)
+
 		// lexer/token.go
 		_, lf, err := ParseDir(repo, "lexer")
 		if err != nil {
@@ -381,4 +388,237 @@ func init() {
 		sb.WriteString("].\n")
 		return sb.String(), nil
 	}})
+}
+
+// ---- unchecked type assertions x.(T) (no comma-ok, not a type switch) in the packages behind
+// parser.ParseProgram, with the syntactic context that protects each; the resolver's check of
+// user-call arguments; the parser's construction of split()'s arguments.
+
+func c03boolCoq(b bool) string {
+	if b {
+		return "true"
+	}
+	return "false"
+}
+
+func c03asserts(repo string) (string, error) {
+	var sb strings.Builder
+	sb.WriteString("Record assert_site : Type := mkAssert { a_file : string; a_func : string; a_expr : string; a_typ : string;\n" +
+		"  a_in_recover : bool; a_case : string; a_guard : string; a_assigns : nat }.\n")
+	sb.WriteString("Record arg_check : Type := mkArgCheck { k_file : string; k_func : string; k_range_over : string; k_value : string;\n" +
+		"  k_has_check : bool; k_reassigned : nat; k_rejects : bool }.\n")
+	var sites []string
+	for _, dir := range []string{"internal/ast", "internal/compiler", "internal/resolver", "parser"} {
+		p, err := c03load(repo, dir)
+		if err != nil {
+			return "", err
+		}
+		for _, n := range SortedNames(p.files) {
+			for _, d := range p.files[n].Decls {
+				fd, ok := d.(*ast.FuncDecl)
+				if !ok || fd.Body == nil {
+					continue
+				}
+				var stack []ast.Node
+				ast.Inspect(fd, func(nd ast.Node) bool {
+					if nd == nil {
+						stack = stack[:len(stack)-1]
+						return true
+					}
+					stack = append(stack, nd)
+					ta, ok := nd.(*ast.TypeAssertExpr)
+					if !ok || ta.Type == nil {
+						return true
+					}
+					// comma-ok forms: v, ok := x.(T) / v, ok = x.(T) / var v, ok = x.(T)
+					if len(stack) >= 2 {
+						switch par := stack[len(stack)-2].(type) {
+						case *ast.AssignStmt:
+							if len(par.Lhs) == 2 && len(par.Rhs) == 1 && par.Rhs[0] == ast.Expr(ta) {
+								return true
+							}
+						case *ast.ValueSpec:
+							if len(par.Names) == 2 && len(par.Values) == 1 && par.Values[0] == ast.Expr(ta) {
+								return true
+							}
+						}
+					}
+					inRecover := false
+					caseLabel, guard := "", ""
+					for i := len(stack) - 2; i >= 0; i-- {
+						switch a := stack[i].(type) {
+						case *ast.FuncLit:
+							if i > 0 {
+								if call, ok := stack[i-1].(*ast.CallExpr); ok && i > 1 {
+									if _, ok := stack[i-2].(*ast.DeferStmt); ok && call.Fun == ast.Expr(a) {
+										hasRecover := false
+										ast.Inspect(a.Body, func(x ast.Node) bool {
+											if c, ok := x.(*ast.CallExpr); ok {
+												if id, ok := c.Fun.(*ast.Ident); ok && id.Name == "recover" {
+													hasRecover = true
+												}
+											}
+											return true
+										})
+										inRecover = hasRecover
+									}
+								}
+							}
+						case *ast.CaseClause:
+							if caseLabel == "" {
+								var ls []string
+								for _, e := range a.List {
+									ls = append(ls, p.render(e))
+								}
+								caseLabel = strings.Join(ls, ", ")
+							}
+						case *ast.IfStmt:
+							// only when the assertion is inside the then-branch
+							if guard == "" && i+1 < len(stack) && stack[i+1] == ast.Node(a.Body) {
+								guard = p.render(a.Cond)
+							}
+						}
+					}
+					assigns := 0
+					if id, ok := ta.X.(*ast.Ident); ok {
+						ast.Inspect(fd.Body, func(x ast.Node) bool {
+							switch st := x.(type) {
+							case *ast.AssignStmt:
+								for _, l := range st.Lhs {
+									if li, ok := l.(*ast.Ident); ok && li.Name == id.Name && li.Obj == id.Obj && st.Tok != token.DEFINE {
+										assigns++
+									}
+								}
+							case *ast.IncDecStmt:
+								if li, ok := st.X.(*ast.Ident); ok && li.Name == id.Name && li.Obj == id.Obj {
+									assigns++
+								}
+							}
+							return true
+						})
+					}
+					sites = append(sites, fmt.Sprintf("  mkAssert %s %s %s %s %s %s %s %d", CoqString(dir+"/"+n), CoqString(fd.Name.Name),
+						CoqString(p.render(ta.X)), CoqString(p.render(ta.Type)), c03boolCoq(inRecover), CoqString(caseLabel), CoqString(guard), assigns))
+					return true
+				})
+			}
+		}
+	}
+	if len(sites) < 2 {
+		return "", fmt.Errorf("found only %d unchecked type assertions (the two recover sites are expected at least)", len(sites))
+	}
+	sb.WriteString("Definition unchecked_asserts : list assert_site := [\n" + strings.Join(sites, ";\n") + "\n].\n")
+
+	// the resolver's check of user-call arguments
+	rp, err := c03load(repo, "internal/resolver")
+	if err != nil {
+		return "", err
+	}
+	var checks []string
+	for _, n := range SortedNames(rp.files) {
+		for _, d := range rp.files[n].Decls {
+			fd, ok := d.(*ast.FuncDecl)
+			if !ok || fd.Body == nil {
+				continue
+			}
+			ast.Inspect(fd.Body, func(nd ast.Node) bool {
+				cc, ok := nd.(*ast.CaseClause)
+				if !ok || len(cc.List) != 1 || rp.render(cc.List[0]) != "*ast.UserCallExpr" {
+					return true
+				}
+				for _, st := range cc.Body {
+					ast.Inspect(st, func(x ast.Node) bool {
+						rs, ok := x.(*ast.RangeStmt)
+						if !ok || !strings.HasSuffix(rp.render(rs.X), ".Args") {
+							return true
+						}
+						val, ok := rs.Value.(*ast.Ident)
+						if !ok {
+							return true
+						}
+						hasCheck, rejects, reassigned := false, false, 0
+						ast.Inspect(rs.Body, func(y ast.Node) bool {
+							switch a := y.(type) {
+							case *ast.AssignStmt:
+								if len(a.Lhs) == 2 && len(a.Rhs) == 1 {
+									if ta, ok := a.Rhs[0].(*ast.TypeAssertExpr); ok && ta.Type != nil && rp.render(ta.Type) == "*ast.VarExpr" {
+										if id, ok := ta.X.(*ast.Ident); ok && id.Name == val.Name {
+											hasCheck = true
+										}
+									}
+								}
+								for _, l := range a.Lhs {
+									if li, ok := l.(*ast.Ident); ok && li.Name == val.Name && a.Tok != token.DEFINE {
+										reassigned++
+									}
+								}
+							case *ast.CallExpr:
+								if rp.render(a.Fun) == "ast.PosErrorf" && len(a.Args) > 1 {
+									if lit, ok := a.Args[1].(*ast.BasicLit); ok && strings.Contains(lit.Value, "as array param") && strings.Contains(lit.Value, "can't pass scalar") {
+										rejects = true
+									}
+								}
+							}
+							return true
+						})
+						checks = append(checks, fmt.Sprintf("  mkArgCheck %s %s %s %s %s %d %s", CoqString("internal/resolver/"+n), CoqString(fd.Name.Name),
+							CoqString(rp.render(rs.X)), CoqString(val.Name), c03boolCoq(hasCheck), reassigned, c03boolCoq(rejects)))
+						return true
+					})
+				}
+				return true
+			})
+		}
+	}
+	if len(checks) == 0 {
+		return "", fmt.Errorf("resolver: no range over the arguments of a *ast.UserCallExpr found")
+	}
+	sb.WriteString("Definition array_arg_checks : list arg_check := [\n" + strings.Join(checks, ";\n") + "\n].\n")
+
+	// the parser's construction of split()'s argument list
+	pp, err := c03load(repo, "parser")
+	if err != nil {
+		return "", err
+	}
+	var initArgs []string
+	found := false
+	for _, n := range SortedNames(pp.files) {
+		for _, d := range pp.files[n].Decls {
+			fd, ok := d.(*ast.FuncDecl)
+			if !ok || fd.Body == nil {
+				continue
+			}
+			ast.Inspect(fd.Body, func(nd ast.Node) bool {
+				cc, ok := nd.(*ast.CaseClause)
+				if !ok || len(cc.List) != 1 || pp.render(cc.List[0]) != "lexer.F_SPLIT" || found {
+					return true
+				}
+				for _, st := range cc.Body {
+					ast.Inspect(st, func(x ast.Node) bool {
+						cl, ok := x.(*ast.CompositeLit)
+						if !ok || pp.render(cl.Type) != "[]ast.Expr" || found {
+							return true
+						}
+						found = true
+						for _, el := range cl.Elts {
+							if u, ok := el.(*ast.UnaryExpr); ok && u.Op == token.AND {
+								if inner, ok := u.X.(*ast.CompositeLit); ok {
+									initArgs = append(initArgs, CoqString("lit:"+pp.render(inner.Type)))
+									continue
+								}
+							}
+							initArgs = append(initArgs, CoqString("expr:"+pp.render(el)))
+						}
+						return true
+					})
+				}
+				return true
+			})
+		}
+	}
+	if !found {
+		return "", fmt.Errorf("parser: the []ast.Expr literal of the split() call was not found")
+	}
+	sb.WriteString("Definition split_args_init : list string := [" + strings.Join(initArgs, "; ") + "].\n")
+	return sb.String(), nil
 }
